@@ -9,20 +9,68 @@ from amc.core import Failure, Report, exc_sig
 from amc.gen import specwords
 
 
-def outcome(cpu, b):
-    d = cpu.disassemble
-    try:
-        i = d(b)
-    except Exception as ex:
-        return ["exc", type(ex).__name__]
-    if i is None:
-        return None
+def render(i):
     try:
         ops = [str(o) for o in i.operands]
     except Exception:
         ops = ["?"]
     misc = sorted((str(k), str(v)) for k, v in i.misc.items() if v is not None)
     return [i.bytes.hex(), str(i.mnemonic), ops, i.type, misc]
+
+
+def outcome2(cpu, b):
+    """(outcome, instruction object or None)"""
+    d = cpu.disassemble
+    try:
+        i = d(b)
+    except Exception as ex:
+        return ["exc", type(ex).__name__], None
+    if i is None:
+        return None, None
+    return render(i), i
+
+
+def outcome(cpu, b):
+    return outcome2(cpu, b)[0]
+
+
+def operand_variants(isa, d, S, order):
+    """x86/x64: the first ModRM specs with the addressing forms that take a code path of their own in getModRM
+    (SIB without base + disp32, disp32 / RIP-relative, SIB with index, disp8) under two different displacements each, so that
+    two calls of one history meet in whatever object such a path might share"""
+    if isa not in ("x86", "x64"):
+        return []
+    from amc.ref import fmtlang
+    out = []
+    done = 0
+    for s in S:
+        if s.pfx is True:
+            continue
+        try:
+            fs = fmtlang.parse(s.format)
+        except Exception:
+            continue
+        mr = specwords.modrm_fields(fs) if fs.variable else None
+        if not mr or s.fix.size != 16:
+            continue
+        Mod, RM, REG = mr
+        nb = fs.nbits // 8
+        for (mod, rm, sib) in ((0, 4, 0x25), (0, 5, None), (2, 4, 0x4B), (0, 4, 0x8D)):
+            w = (fs.fix | (mod << Mod.lo) | (rm << RM.lo)).to_bytes(nb, "little")
+            for disp in (b"\x44\x33\x22\x11", b"\x88\x77\x66\x55"):
+                b = w + (bytes([sib]) if sib is not None else b"") + disp + b"\x00" * 6
+                setattr(d, "_disassembler__i", None)
+                try:
+                    i = d(b)
+                except Exception:
+                    i = None
+                setattr(d, "_disassembler__i", None)
+                if i is not None:
+                    out.append(b[:len(i.bytes)])
+        done += 1
+        if done >= 1:
+            break
+    return out
 
 
 def pending(cpu):
@@ -86,6 +134,8 @@ def build_menu(isa, mode):
     setattr(d, "_disassembler__i", None)
     for v in valids:
         menu.append(("valid", v.hex()))
+    for v in operand_variants(isa, d, S, order):
+        menu.append(("valid-addressing", v.hex()))
     prefixes = prefixes[:5]
     for p in prefixes:
         menu.append(("prefix-only", p.hex()))
@@ -173,7 +223,7 @@ def _explore(isa, mode, menu, refs, depth):
     d = cpu.disassemble
     mname = isas.mode_name(mode)
     fails = []
-    stats = {"sequences": 0, "calls": 0, "states": set(), "outcomes": set()}
+    stats = {"sequences": 0, "calls": 0, "states": set(), "outcomes": set(), "retained": 0}
     cls_of = dict((h, c) for c, h in menu)
     items = [h for c, h in menu]
     import itertools
@@ -192,8 +242,10 @@ def _explore(isa, mode, menu, refs, depth):
             isas.set_mode(cpu, mode)
             stats["sequences"] += 1
             bad = False
+            kept = []
             for k, h in enumerate(seq):
-                o = outcome(cpu, bytes.fromhex(h))
+                o, ins = outcome2(cpu, bytes.fromhex(h))
+                kept.append(ins)
                 stats["calls"] += 1
                 p = pending(cpu)
                 stats["states"].add("None" if p is None else p.bytes.hex())
@@ -217,6 +269,22 @@ def _explore(isa, mode, menu, refs, depth):
                     break
             if bad:
                 continue
+            # instructions returned by earlier calls must still read as they did when they were returned
+            for k, ins in enumerate(kept[:-1]):
+                if ins is None:
+                    continue
+                stats["retained"] += 1
+                o = render(ins)
+                if o != refs[seq[k]]:
+                    j = k + 1
+                    for j in range(k + 1, len(seq)):
+                        if kept[j] is not None:
+                            break
+                    sig = (isa, mname, "returned=" + cls_of[seq[k]], "later=" + cls_of[seq[j]], "retained-instruction")
+                    fails.append(Failure(sig, "%s %s: the instruction returned by call %d of %r reads %r after the later calls (it was %r when "
+                                              "returned, as in a fresh process)" % (isa, mname, k, list(seq), o, refs[seq[k]]),
+                                         {"isa": isa, "mode": mode, "calls": list(seq), "retained": k}, rank=len(seq)).to_json())
+                    break
     stats["states"] = sorted(stats["states"])
     stats["outcomes"] = len(stats["outcomes"])
     return {"fails": fails, "stats": stats}
@@ -243,11 +311,13 @@ def run(tier, seed):
         jobs = [(isa, mode, menu, refs[(isa, isas.mode_name(mode))], depth) for (isa, mode), menu in zip(modes, menus)]
         res = core._watched_map(pool, explore_mode, jobs, 1)
     seqs = calls = 0
+    retained = 0
     allstates = 0
     per = []
     for (isa, mode), menu, r in zip(modes, menus, res):
         seqs += r["stats"]["sequences"]
         calls += r["stats"]["calls"]
+        retained += r["stats"].get("retained", 0)
         allstates += len(r["stats"]["states"])
         per.append({"isa": isa, "mode": isas.mode_name(mode), "menu": len(menu), "sequences": r["stats"]["sequences"],
                     "pending_states_seen": r["stats"]["states"][:6], "distinct_outcomes": r["stats"]["outcomes"],
@@ -262,7 +332,10 @@ def run(tier, seed):
                 "undecodable, empty, too short, suffix, inputs on which a setup function raises with and without a prefix); every "
                 "sequence of menu calls up to the depth is run on the one real disassembler object; state = pending prefix "
                 "instruction; after every call the pending instruction must be None and every outcome must equal the outcome "
-                "of the same call made first in a fresh process",
+                "of the same call made first in a fresh process; the instruction objects returned by the earlier calls of a "
+                "history are kept and must still render (bytes, mnemonic, operands, type, misc) as in the fresh process after the "
+                "later calls (x86/x64 menus hold one ModRM instruction in each addressing form of getModRM under two displacements)",
+        "retained_instructions_rechecked": retained,
         "depth": depth, "per_mode": per,
         "samples": [{"isa": per[0]["isa"], "calls": [m for m in menus[0][:3]]}],
         "closed_below_bound": True,
@@ -279,12 +352,22 @@ def replay(case):
         cpu = isas.load(isa)
         isas.set_mode(cpu, mode)
         o = None
+        kept = []
         for h in calls:
-            o = outcome(cpu, bytes.fromhex(h))
+            o, ins = outcome2(cpu, bytes.fromhex(h))
+            kept.append(ins)
         p = pending(cpu)
-        return o, (None if p is None else p.bytes.hex())
-    o, p = in_fresh_process(seq)
+        r = None
+        if case.get("retained") is not None and kept[case["retained"]] is not None:
+            r = render(kept[case["retained"]])
+        return o, (None if p is None else p.bytes.hex()), r
+    o, p, r = in_fresh_process(seq)
     out = []
+    if case.get("retained") is not None:
+        ref_k = in_fresh_process(first_call, isa, mode, calls[case["retained"]])
+        if r != ref_k:
+            out.append(Failure((isa, "retained-instruction"), "instruction of call %d reads %r after %r, fresh %r" % (case["retained"], r, calls, ref_k), case))
+        return out
     if o != ref:
         out.append(Failure((isa, "outcome"), "after %r: %r, fresh %r" % (calls[:-1], o, ref), case))
     if p is not None:
